@@ -73,7 +73,78 @@ pub fn random_update<const T: u32>(rate_mode: u8, lo: u32, hi: u32, vlo: u32, vh
     core::mem::forget(agent);
 }
 
+/// the multi-asset twin: one `RandomMarketAgents::update` for one slot on asset 1 of a two-asset
+/// environment whose asset-1 book holds one arbitrary order (any status) the slot may be holding
+pub fn random_market_update<const T: u32>(rate_mode: u8, lo: u32, hi: u32, vlo: u32, vhi: u32) {
+    use crate::market_env::verif_proofs::mcancelled;
+    let p0: Plain<2> = gen_plain::<2>(1, OFF);
+    let mut p1: Plain<2> = gen_plain::<2>(1, GenCfg { tick: T, ..OFF });
+    p1.t = p0.t;
+    p1.trading = p0.trading;
+    let market: bourse_book::Market<2, 2> = bourse_book::Market::verif_from_books([build::<2, 2>(&p0, 0), build::<2, 2>(&p1, 0)]);
+    let mut env: MarketEnv<2, 2> = MarketEnv::verif_from_market(any_u64(), market);
+    let holds = any_bool();
+    let rate = prob(rate_mode);
+    let mut agent = RandomMarketAgents { asset: 1, orders: vec![if holds { Some((1, 0)) } else { None }], tick_range: (lo, hi), vol_range: (vlo, vhi), tick_size: T, activity_rate: rate };
+    let mut rng = SymRng::new();
+    let w_act = rng.push_u32();
+    let w_side = rng.push_u32();
+    let w_tick = rng.push_u32();
+    let w_vol = rng.push_u32();
+    assume(accepted_u32(w_side, 2) && accepted_u32(w_tick, hi - lo) && accepted_u32(w_vol, vhi - vlo));
+    rng.strict = true;
+    let was_active = holds && entry_order(&p1.e[0]).status == Status::Active;
+
+    agent.update(&mut env, &mut rng);
+
+    let (plog, np) = placed();
+    let (clog, nc) = mcancelled();
+    let acts = f32_of_word(w_act) < rate;
+    match rate_mode {
+        0 => vcheck!(!acts, "RANDOM.activity_rate_zero_never_acts"),
+        1 => vcheck!(acts, "RANDOM.activity_rate_one_always_acts"),
+        _ => {}
+    }
+    vcheck!(!rng.overdrawn, "RANDOM.draws_only_the_documented_words");
+    if !acts {
+        vcheck!(np == 0 && nc == 0 && agent.orders[0] == if holds { Some((1, 0)) } else { None } && rng.calls == 1, "RANDOM.inactive_agent_does_nothing");
+    } else if was_active {
+        vcheck!(np == 0 && nc == 1 && clog[0] == (1, 0), "RANDOM.cancels_only_its_own_active_order");
+        vcheck!(agent.orders[0].is_none(), "RANDOM.slot_cleared_after_cancel");
+    } else {
+        vcheck!(nc == 0 && np == 1, "RANDOM.places_exactly_one_order_when_it_holds_no_live_order");
+        if np == 1 {
+            let o = plog[0];
+            let in_range = match o.price {
+                Some(px) => px % T == 0 && px / T >= lo && px / T < hi,
+                None => false,
+            };
+            vcheck!(o.asset == 1, "RANDOM.orders_go_to_the_agents_own_asset");
+            vcheck!(in_range, "RANDOM.limit_price_is_tick_size_times_a_tick_inside_the_configured_range");
+            vcheck!(o.vol >= vlo && o.vol < vhi, "RANDOM.volume_inside_the_configured_range");
+            vcheck!(o.trader == 0, "RANDOM.trader_id_is_the_agent_index");
+            vcheck!(agent.orders[0] == Some((1, 0)), "RANDOM.slot_holds_the_new_order_id");
+        }
+    }
+    vcover!(acts && was_active, "cover.cancels");
+    vcover!(acts && !was_active && np == 1 && plog[0].bid, "cover.places_a_bid");
+    core::mem::forget(env);
+    core::mem::forget(agent);
+}
+
 vharnesses! {
+    #[cfg_attr(kani, kani::unwind(12))]
+    #[cfg_attr(kani, kani::stub(crate::MarketEnv::place_order, crate::MarketEnv::verif_log_place_order))]
+    #[cfg_attr(kani, kani::stub(crate::MarketEnv::cancel_order, crate::MarketEnv::verif_log_cancel_order))]
+    fn c16_random_market_update_always_tick3() { random_market_update::<3>(1, 10, 37, 1, 1000) }
+    #[cfg_attr(kani, kani::unwind(12))]
+    #[cfg_attr(kani, kani::stub(crate::MarketEnv::place_order, crate::MarketEnv::verif_log_place_order))]
+    #[cfg_attr(kani, kani::stub(crate::MarketEnv::cancel_order, crate::MarketEnv::verif_log_cancel_order))]
+    fn c16_random_market_update_never_tick1() { random_market_update::<1>(0, 10, 20, 20, 30) }
+    #[cfg_attr(kani, kani::unwind(12))]
+    #[cfg_attr(kani, kani::stub(crate::MarketEnv::place_order, crate::MarketEnv::verif_log_place_order))]
+    #[cfg_attr(kani, kani::stub(crate::MarketEnv::cancel_order, crate::MarketEnv::verif_log_cancel_order))]
+    fn c16_random_market_update_interior_tick10() { random_market_update::<10>(2, 5, 6, 100, 101) }
     #[cfg_attr(kani, kani::unwind(12))]
     #[cfg_attr(kani, kani::stub(crate::Env::place_order, crate::Env::verif_log_place_order))]
     #[cfg_attr(kani, kani::stub(crate::Env::cancel_order, crate::Env::verif_log_cancel_order))]
